@@ -1,0 +1,17 @@
+//go:build verif
+
+package mathext
+
+// Exports for the external verification harness (property C17). Add-only; compiled only with -tags verif.
+
+// VerifPdepGeneric exposes the portable bit deposit loop.
+func VerifPdepGeneric(x, mask uint64) uint64 { return pdepGeneric(x, mask) }
+
+// VerifPextGeneric exposes the portable bit extract loop.
+func VerifPextGeneric(x, mask uint64) uint64 { return pextGeneric(x, mask) }
+
+// VerifPdepHW / VerifPextHW are the hardware (BMI2) variants; nil when this build or CPU has none.
+var (
+	VerifPdepHW func(x, mask uint64) uint64
+	VerifPextHW func(x, mask uint64) uint64
+)
